@@ -5,6 +5,8 @@
    recorded findings (the harness reports the number of shared sites that are
    *not* recorded), does not change when the live state is mutated
    afterwards, and taking it does not change the live state.
+   CSave: the real checkpoint Manager driven asynchronously with a probe
+   checkpoint (see harness/cmd/c40/ckptoracle.go).
    CLock: the harness's own evaluation of the lockset checker on the
    translated summaries of one lock group (number of parts, number of
    rejected pairs) compared with the Coq checker run on the generated file
@@ -16,13 +18,17 @@ Local Open Scope N_scope.
 
 Inductive case :=
 | CSnap (id kind : N) (is_nil : bool) (idents unknown_shared : N) (changed_unexplained live_changed : bool)
-| CLock (id group nparts nviolations : N) (coq_parts coq_violations : N).
+| CLock (id group nparts nviolations : N) (coq_parts coq_violations : N)
+| CSave (id period files_ok off_path_snapshots live_serializes bad_files : N) (panicked : bool).
 
 Definition check (c : case) : option N :=
   match c with
   | CSnap id _ is_nil idents unknown changed livechg =>
       if negb is_nil && (0 <? idents) && (unknown =? 0) && negb changed && negb livechg
       then None else Some id
+  | CSave id _ ok off lser bad p =>
+      (* model of the manager: every due file is written from a snapshot taken on the block path *)
+      if (0 <? ok) && (off =? 0) && (lser =? 0) && (bad =? 0) && negb p then None else Some id
   | CLock id _ np nv cp cv =>
       if (np =? cp) && (nv =? cv) then None else Some id
   end.
